@@ -136,7 +136,7 @@ def shard(ctx, k, payload):
         bq = quantities(base)
         read = {key for _, reads, _ in base.trace.attempts for kind, key, o, _v in reads if kind == 'i' and o == 'ok'}
         for _ in range(nvar):
-            kind = data.draw(st.sampled_from(['perm', 'perm', 'wage', 'deduct', 'deduct', 'withhold']))
+            kind = data.draw(st.sampled_from(['perm', 'perm', 'wage', 'wage', 'deduct', 'deduct', 'withhold']))
             case = {'scenario': scenario.slim(sc), 'kind': kind}
             if kind == 'perm':
                 forms = [f for f in NUMBERED if sum(1 for k_ in inputs if k_.startswith(f + ':1.')) > 0]
@@ -167,13 +167,49 @@ def shard(ctx, k, payload):
                 continue
             key = data.draw(st.sampled_from(cands))
             delta = data.draw(st.sampled_from([0.01, 1.0, 37.5, 250.0, 1000.0, 4321.09, 10000.0, 60000.0, 100000.0]))
+            if kind == 'wage' and data.draw(st.booleans()) and isinstance(base.values.get('1040.11'), (int, float)):
+                # cliff hunting: statutory thresholds sit on round amounts of AGI. Put one return exactly on a round
+                # amount and its partner a little above it, and compare those two (the second has more wages)
+                agi = float(base.values['1040.11'])
+                try:
+                    old0 = float(inputs[key].strip() or 0)
+                except ValueError:
+                    continue
+                lowest = agi - old0 + 1.0          # the statement keeps at least a dollar of wages
+                m_ = data.draw(st.sampled_from([1000, 2500, 5000, 10000, 20000]))
+                t_ = (int(agi // m_) + data.draw(st.integers(-4, 4))) * m_
+                if data.draw(st.booleans()):
+                    # or an amount that one of the forms taking part writes as a literal / threshold
+                    from hx import mock
+                    cands_t = sorted({c_ for f_ in base.solver.forms.values() for c_ in mock.form_thresholds(f_) if max(lowest, agi - 120000) < c_ <= agi + 80000})
+                    if cands_t:
+                        t_ = data.draw(st.sampled_from(cands_t))
+                if t_ <= lowest:
+                    ctx.count('wage_cliff:target_below_available_wages')
+                    continue
+                ctx.count('wage_cliff:target_below_base_agi' if t_ < agi else 'wage_cliff:target_above_base_agi')
+                eps = data.draw(st.sampled_from([0.01, 1.0, 100.0, 250.0]))
+                at = dict(inputs)
+                at[key] = f'{old0 + (t_ - agi):.2f}'
+                ra = solve_vals(sc, at)
+                if ra is None:
+                    ctx.count('pairs_dropped_second_unsolved:wage_cliff')
+                    continue
+                if abs(fnum(ra.values.get('1040.11')) - t_) < 0.006:
+                    ctx.count('wage_cliff:first_return_exactly_on_round_agi')
+                # from here on the pair is (return on the round amount, return eps above it)
+                inputs_pair, bq_pair, delta = at, quantities(ra), eps
+                case = dict(case, scenario=dict(case['scenario'], inputs=at), cliff=t_)
+            else:
+                inputs_pair, bq_pair = inputs, bq
             try:
-                old = float(inputs[key].strip() or 0)
+                old = float(inputs_pair[key].strip() or 0)
             except ValueError:
                 continue
-            inp2 = dict(inputs)
+            inp2 = dict(inputs_pair)
             inp2[key] = f'{old + delta:.2f}'
             case.update(key=key, delta=delta)
+            bqp = bq_pair
             r2 = solve_vals(sc, inp2)
             ctx.case()
             if r2 is None:
@@ -184,18 +220,18 @@ def shard(ctx, k, payload):
             kb = key.split('.')[0].split(':')[0] + '.' + key.split('.')[1]
             changed = False
             if kind == 'wage':
-                if q2['tax24'] < bq['tax24'] - 0.011:
-                    ctx.violation(f'wage:tax-decreases', f'{year}: {key} +{delta} lowers total tax from {bq["tax24"]} to {q2["tax24"]}', case)
-                if 'nc19' in bq and q2['nc19'] < bq['nc19'] - 1.01:
-                    ctx.violation(f'wage:nc-tax-decreases', f'{year}: {key} +{delta} lowers NC tax from {bq["nc19"]} to {q2["nc19"]}', case)
-                changed = q2['tax24'] != bq['tax24']
+                if q2['tax24'] < bqp['tax24'] - 0.011:
+                    ctx.violation(f'wage:tax-decreases', f'{year}: {key} +{delta} lowers total tax from {bqp["tax24"]} to {q2["tax24"]}', case)
+                if 'nc19' in bqp and q2['nc19'] < bqp['nc19'] - 1.01:
+                    ctx.violation(f'wage:nc-tax-decreases', f'{year}: {key} +{delta} lowers NC tax from {bqp["nc19"]} to {q2["nc19"]}', case)
+                changed = q2['tax24'] != bqp['tax24']
             elif kind == 'deduct':
-                if q2['tax24'] > bq['tax24'] + 0.011:
-                    ctx.violation(f'deduct:tax-increases:{kb}', f'{year}: {key} +{delta} raises total tax from {bq["tax24"]} to {q2["tax24"]}', case)
-                changed = q2['tax24'] != bq['tax24']
+                if q2['tax24'] > bqp['tax24'] + 0.011:
+                    ctx.violation(f'deduct:tax-increases:{kb}', f'{year}: {key} +{delta} raises total tax from {bqp["tax24"]} to {q2["tax24"]}', case)
+                changed = q2['tax24'] != bqp['tax24']
             else:
-                if abs((q2['net'] - bq['net']) - delta) > 0.011:
-                    ctx.violation(f'withhold:not-dollar-for-dollar:{kb}', f'{year}: {key} +{delta} moves refund-minus-owed by {q2["net"] - bq["net"]:.2f}', case)
+                if abs((q2['net'] - bqp['net']) - delta) > 0.011:
+                    ctx.violation(f'withhold:not-dollar-for-dollar:{kb}', f'{year}: {key} +{delta} moves refund-minus-owed by {q2["net"] - bqp["net"]:.2f}', case)
                 changed = True
             if key in read and changed:
                 ctx.nt({'b': inputs, 'k': key, 'd': delta})
@@ -206,9 +242,82 @@ def shard(ctx, k, payload):
     hyp.run_data(body, n, seed)
 
 
+def cliff_pair(ctx, sc, key, old0, agi, t_, eps, year, status):
+    """two returns that differ by `eps` of wages, the first with AGI exactly on t_: total tax must not fall"""
+    at = dict(sc['inputs'])
+    at[key] = f'{old0 + (t_ - agi):.2f}'
+    ra = solve_vals(sc, at)
+    if ra is None:
+        ctx.count('cliff:first_unsolved')
+        return False
+    b = dict(at)
+    b[key] = f'{old0 + (t_ - agi) + eps:.2f}'
+    rb = solve_vals(sc, b)
+    ctx.case()
+    if rb is None:
+        ctx.count('cliff:second_unsolved')
+        return True
+    qa, qb = quantities(ra), quantities(rb)
+    ctx.count('cliff:pairs')
+    case = {'scenario': {'year': sc['year'], 'forms': sc['forms'], 'inputs': at}, 'kind': 'wage', 'key': key, 'delta': eps, 'cliff': t_}
+    if qb['tax24'] < qa['tax24'] - 0.011:
+        ctx.violation('wage:tax-decreases', f'{year} {status}: AGI {t_} -> {t_ + eps} ({key} +{eps}) lowers total tax from {qa["tax24"]} to {qb["tax24"]}', case)
+    if 'nc19' in qa and 'nc19' in qb and qb['nc19'] < qa['nc19'] - 1.01:
+        ctx.violation('wage:nc-tax-decreases', f'{year} {status}: AGI {t_} -> {t_ + eps} ({key} +{eps}) lowers NC tax from {qa["nc19"]} to {qb["nc19"]}', case)
+    if abs(fnum(ra.values.get('1040.11')) - t_) < 0.006 and (qa['tax24'] != qb['tax24'] or qa.get('nc19') != qb.get('nc19')):
+        ctx.nt(f'cliff|{year}|{status}|{sc["forms"]}|{t_}|{eps}')
+    return True
+
+
+def shard_cliffs(ctx, k, payload):
+    """threshold sweep: for a household, every amount that a participating form writes as a literal or lists as a
+    threshold (and every multiple of $10,000) within reach of its wages is taken as an AGI to stand on"""
+    from hx import mock
+    n, max_t, seed = payload
+
+    def body(data):
+        forms = data.draw(st.sampled_from([['1040'], ['1040', 'nc_d-400'], ['1040', 'nc_d-400']]))
+        p = data.draw(scenario.personas(forms=forms))
+        p['n_w2'] = max(p['n_w2'], 1)
+        if data.draw(st.booleans()) and not any(x == 'ctc' for x in p['deps']):
+            p['deps'] = ['ctc'] * data.draw(st.sampled_from([1, 1, 2]))
+            p = scenario.constrain(p)
+        sc, base = scenario.build(p, data.draw)
+        if base.exc is not None or not base.verdict or not isinstance(base.values.get('1040.11'), (int, float)):
+            ctx.count('cliff:base_not_solved')
+            return
+        ctx.count('cliff:bases')
+        inputs = sc['inputs']
+        wkeys = sorted((k_ for k_ in inputs if matches(k_, WAGES)), key=lambda k_: -float(inputs[k_].strip() or 0))
+        if not wkeys:
+            return
+        key = wkeys[0]
+        old0 = float(inputs[key].strip() or 0)
+        agi = float(base.values['1040.11'])
+        lowest = agi - old0 + 1.0
+        ts = {c_ for f_ in base.solver.forms.values() for c_ in mock.form_thresholds(f_)} | {float(x) for x in range(10000, 600001, 10000)}
+        ts = sorted(t for t in ts if max(lowest, agi - 150000) < t <= agi + 100000)
+        ctx.count('cliff:candidate_thresholds', len(ts))
+        if len(ts) > max_t:
+            ctx.count('cliff:bases_with_sampled_thresholds')
+            ts = sorted(data.draw(st.lists(st.sampled_from(ts), min_size=max_t, max_size=max_t, unique=True)))
+        # from the highest down; below some income the household enters a range HabuTax does not compute
+        # (earned income credit), so after four consecutive unsolved returns the descent stops
+        streak = 0
+        for t_ in reversed(ts):
+            ok = cliff_pair(ctx, sc, key, old0, agi, t_, data.draw(st.sampled_from([0.01, 1.0, 100.0, 250.0])), sc['year'], p['status'])
+            streak = 0 if ok else streak + 1
+            if streak >= 4:
+                ctx.count('cliff:descent_stopped_after_4_unsolved')
+                break
+    hyp.run_data(body, n, seed)
+
+
 def run(ctx):
     quick = ctx.tier == 'quick'
-    n, nvar = (300, 6) if quick else (10000, 12)
+    nc_, mt = (160, 120) if quick else (4000, 200)
+    hyp.pmap(ctx, shard_cliffs, [(max(1, nc_ // 16), mt, ctx.seed * 1000 + 700 + k) for k in range(16)])
+    n, nvar = (400, 6) if quick else (10000, 12)
     shards = 16
     hyp.pmap(ctx, shard, [(max(1, n // shards), nvar, ctx.seed * 1000 + k) for k in range(shards)])
 
@@ -236,6 +345,8 @@ def replay(ctx, case):
     kb = key.split('.')[0].split(':')[0] + '.' + key.split('.')[1]
     if case['kind'] == 'wage' and q2['tax24'] < bq['tax24'] - 0.011:
         ctx.violation('wage:tax-decreases', f'{key} +{delta}: {bq["tax24"]} -> {q2["tax24"]}', case)
+    if case['kind'] == 'wage' and 'nc19' in bq and q2['nc19'] < bq['nc19'] - 1.01:
+        ctx.violation('wage:nc-tax-decreases', f'{key} +{delta}: NC tax {bq["nc19"]} -> {q2["nc19"]}', case)
     if case['kind'] == 'deduct' and q2['tax24'] > bq['tax24'] + 0.011:
         ctx.violation(f'deduct:tax-increases:{kb}', f'{key} +{delta}: {bq["tax24"]} -> {q2["tax24"]}', case)
     if case['kind'] == 'withhold' and abs((q2['net'] - bq['net']) - delta) > 0.011:
